@@ -139,6 +139,10 @@ func classifySMF(b []byte) (v string) {
 			v = fmt.Sprintf("smf.Message % X (type %v) belongs to %d categories %v, want exactly one", b, ty, cats, which)
 			return
 		}
+		if len(b) > 0 && b[0] == 0xFF && m.IsPlayable() {
+			v = fmt.Sprintf("smf.Message % X: a leading FF means a meta event in a file, but the message is reported as playable (it would be sent to an instrument as a reset)", b)
+			return
+		}
 		if len(b) > 0 && b[0] == 0xFF && (m.Is(midi.RealTimeMsg) || m.Is(midi.ResetMsg)) {
 			v = fmt.Sprintf("smf.Message % X: a leading FF means a meta event in a file, but it is classified as real-time reset", b)
 			return
